@@ -247,6 +247,11 @@ bool vh::run_case(std::string const& op, Toks& in, Out& impl, Out& ref)
         op_notfn_static<StdLib>(x, ref);
         return true;
     }
+    if (op == "ipfsizes") {
+        op_ipfsizes<EtlFn>(impl);
+        op_ipfsizes<StdFn>(ref);
+        return true;
+    }
     if (op == "ipf") {
         Toks copy = in;
         op_ipf<EtlFn>(in, impl);
